@@ -221,6 +221,12 @@ def scenarios(ctx):
         spec["dump_interval"] = p["end"] / rng.choice([5.3, 9.1, 17.7])
         if i % 4 == 3:   # commensurate intervals: exact ties between sampling, dumping, end-of-chain and end-of-run times
             p["sampling_interval"], p["end"], spec["dump_interval"] = rng.choice([0.25, 0.125]), 3.1, rng.choice([0.375, 0.25, 0.5])
+            # ... but no tie with the end of a chain (an event that changes the state): 25 chains of 0.11 are 11 samples of 0.25
+            if "chain_time" in p:
+                p["chain_time"] *= 0.9731
+            for key in ("switch_leaf", "switch_root"):
+                if key in p:
+                    p[key] *= 1.0137
         out.append(spec)
     return out
 
